@@ -1,7 +1,7 @@
 (* Run.v — command dispatcher used by both the extracted driver and cases.v.
    Each command is (cmd arg ...); the answer is an S-expression. *)
 From Coq Require Import String.
-From Cedar Require Export Codec.
+From Cedar Require Export Codec Like.
 Open Scope string_scope.
 
 Definition run_eval (args : list sexp) : sexp :=
@@ -24,7 +24,18 @@ Definition run_authorize (args : list sexp) : sexp :=
   | _ => bad_input
   end.
 
+(* (like_loop <pattern> <str>): the transcription of the Rust two-pointer loop *)
+Definition run_like_loop (args : list sexp) : sexp :=
+  match args with
+  | [p; SS s] => match d_list d_patelem p with
+                 | Some p => e_bool (wildcard_loop p s)
+                 | None => bad_input
+                 end
+  | _ => bad_input
+  end.
+
 Definition run_core (cmd : string) (args : list sexp) : option sexp :=
   if sym_eqb cmd "eval" then Some (run_eval args)
   else if sym_eqb cmd "authorize" then Some (run_authorize args)
+  else if sym_eqb cmd "like_loop" then Some (run_like_loop args)
   else None.
